@@ -23,6 +23,10 @@ RULES13 = ['InverseBinaryRule', 'BlockRowBlockDiagonalRule', 'BlockDiagonalBlock
            'LinearPolarizerHWPRule']
 
 PLAN = {
+    'C10': _p(quick=90, thorough=2500),
+    'C05': _p(quick=90, thorough=2500),
+    'C03': _p(quick=90, thorough=2500),
+    'C04': _p(quick=60, thorough=1500),
     'C02': _p(quick=110, thorough=3000),
     'C01': _p(quick=90, thorough=3000,
               required_classes={'all': ['rule:' + r for r in RULES13] + ['rule:IdentityRule', 'rule:HomothetyRule']}),
